@@ -903,7 +903,7 @@ static item   *POOL;
 static wres   *WR; // per worker result areas
 
 static struct {
-	const char *prop, *tier, *outpath, *replay;
+	const char *prop, *tier, *outpath, *replay, *only;
 	int         workers;
 	double      t0, deadline;
 	char        rundir[256];
@@ -919,8 +919,8 @@ static struct {
 	int    nnotes;
 	char   notes[32][2][400];
 	int    machinery_errors;
-	char   scen_json[16384];
-	int    scen_len;
+	char  *scen_json;
+	int    scen_len, scen_cap;
 } G;
 
 static double
@@ -1016,6 +1016,8 @@ run_one(const vx_cfg *cfg, const item *it, wres *w, int errfd, int watchdog)
 	pid_t pid = fork();
 	if (pid == 0) {
 		dup2(errfd, 2);
+		dup2(errfd, 1); // nni_panic prints on stdout
+		setvbuf(stdout, NULL, _IONBF, 0);
 		alarm((unsigned) watchdog);
 		vs_child_init(w, it);
 		cfg->run(cfg->arg);
@@ -1271,7 +1273,22 @@ worker(const vx_cfg *cfg, int wi)
 				crash_signature(
 				    err, sig, sizeof(sig), msg, sizeof(msg));
 			}
-			// prefix signature with scenario-independent property id
+			{
+				// fault-injection context (valloc logs the failed site)
+				const char *as = strstr(w->log, "ALLOC-FAIL site=");
+				if (as) {
+					char   site[120];
+					size_t i = 0;
+					as += 16;
+					while (as[i] && as[i] != '\n' && i < sizeof(site) - 1) {
+						site[i] = as[i];
+						i++;
+					}
+					site[i]  = 0;
+					size_t l = strlen(sig);
+					snprintf(sig + l, sizeof(sig) - l, "|site=%s", site);
+				}
+			}
 			slock();
 			int known = sig_known(sig);
 			sunlock();
@@ -1450,6 +1467,8 @@ vx_init(int argc, char **argv, const char *prop)
 			G.outpath = argv[++i];
 		else if (!strcmp(argv[i], "--replay") && i + 1 < argc)
 			G.replay = argv[++i];
+		else if (!strcmp(argv[i], "--only") && i + 1 < argc)
+			G.only = argv[++i];
 		else if (!strcmp(argv[i], "--workers") && i + 1 < argc)
 			G.workers = atoi(argv[++i]);
 		else if (!strcmp(argv[i], "--deadline") && i + 1 < argc)
@@ -1561,6 +1580,8 @@ vx_explore(const vx_cfg *cfg0, vx_stats *out)
 		cfg.watchdog_s = 20;
 	if (G.replay)
 		return replay_file(&cfg);
+	if (G.only && !strstr(cfg.scenario, G.only))
+		return 0;
 	double t0 = wall();
 	if (cfg.deadline_s > 0 && t0 + cfg.deadline_s < G.deadline) {
 		// per-scenario deadline handled through G.deadline swap below
@@ -1713,8 +1734,13 @@ vx_explore(const vx_cfg *cfg0, vx_stats *out)
 		for (int i = 0; i < MAXLEVEL && S->level_exec[i]; i++)
 			o += (size_t) snprintf(lv + o, sizeof(lv) - o, "%s%ld",
 			    i ? "," : "", S->level_exec[i]);
+		if (G.scen_cap - G.scen_len < 4096) {
+			G.scen_cap   = G.scen_cap * 2 + 8192;
+			G.scen_json  = realloc(G.scen_json, (size_t) G.scen_cap);
+			G.scen_json[G.scen_len] = 0;
+		}
 		G.scen_len += snprintf(G.scen_json + G.scen_len,
-		    sizeof(G.scen_json) - (size_t) G.scen_len,
+		    (size_t) (G.scen_cap - G.scen_len),
 		    "%s{\"scenario\":\"%s\",\"executions\":%ld,\"choice_nodes\":%ld,"
 		    "\"sched_steps\":%ld,\"switches\":%ld,\"budgets\":{%s},"
 		    "\"total_dev\":%d,\"executions_per_deviation_level\":[%s],"
@@ -1725,8 +1751,6 @@ vx_explore(const vx_cfg *cfg0, vx_stats *out)
 		    st.steps, st.switches, bb, cfg.total, lv, st.completed_level,
 		    st.exhaustive ? "true" : "false", st.outcomes, ob,
 		    st.maxdepth, st.hangs, st.wall_s);
-		if (G.scen_len >= (int) sizeof(G.scen_json) - 1)
-			G.scen_len = (int) sizeof(G.scen_json) - 1;
 	}
 	fprintf(stderr,
 	    "[vs] %s/%s: exec=%ld nodes=%ld steps=%ld outcomes=%d level=%d "
@@ -1818,7 +1842,7 @@ vx_finish(void)
 	    G.exhaustive ? "true" : "false",
 	    G.determinism_ok ? "true" : "false");
 	fprintf(f, "\"machinery_errors\":%d,", G.machinery_errors);
-	fprintf(f, "\"scenario_stats\":[%s],", G.scen_json);
+	fprintf(f, "\"scenario_stats\":[%s],", G.scen_json ? G.scen_json : "");
 	fprintf(f, "\"samples\":[");
 	for (int i = 0; i < G.nsamples; i++) {
 		if (i)
